@@ -14,6 +14,10 @@
 (*   safety         (Safe/HeapOK)              unit.B = 0                  *)
 (*   race monitor   (RaceFree)                 unit.race                   *)
 (*   C trace        (ExoCTrace)                input.out present           *)
+(*   iteration order (ExoPar)                  unit.permute: phase B runs  *)
+(*                  the same procedure with the iterations of every        *)
+(*                  parallel loop in EVERY order (TLC branches over the    *)
+(*                  permutations); all final states must equal phase A's   *)
 (* State invariants that must hold at every step are folded into `trap`,   *)
 (* which stops the behaviour.                                              *)
 (***************************************************************************)
@@ -227,7 +231,15 @@ Blocks == Procs[TopF.proc].blocks
 Cur == Blocks[TopC.b][TopC.i]
 Running == phase \in {"A", "B"} /\ trap.k = "none" /\ NF > 0
 AtStmt == Running /\ Len(Stk) > 0 /\ TopC.i <= Len(Blocks[TopC.b])
-Ctl(b) == [b |-> b, i |-> 1, hi |-> 0, als |-> << >>]
+Ctl(b) == [b |-> b, i |-> 1, hi |-> 0, als |-> << >>, ord |-> << >>, pm |-> FALSE]
+\* orders in which the iterations lo..hi-1 of a parallel loop are run when the unit asks for it (phase B only):
+\* all permutations for up to 3 iterations, else identity, reversal and one rotation
+Permuting == phase = "B" /\ "permute" \in DOMAIN Unit /\ Unit.permute
+Orders(lo, hi) ==
+  LET k == hi - lo
+      idn == [j \in 1..k |-> lo + j - 1]
+  IN IF k <= 3 THEN {f \in [1..k -> lo..(hi - 1)] : \A p, q \in 1..k : p # q => f[p] # f[q]}
+     ELSE {idn, [j \in 1..k |-> hi - j], [j \in 1..k |-> IF j = k THEN lo ELSE lo + j]}
 AdvStk(s) == [s EXCEPT ![Len(s)].i = @ + 1]
 SetTop(f) == [frames EXCEPT ![NF] = f]
 Here(k) == [k |-> k, p |-> TopF.proc, b |-> TopC.b, i |-> TopC.i]
@@ -414,9 +426,15 @@ ForS ==
                 THEN /\ frames' = SetTop([F EXCEPT !.stk = AdvStk(@)])
                      /\ par' = ParLog(rd, {}, {})
                      /\ UNCHANGED <<heap, nal, trap, tr, tpos>>
-                ELSE /\ frames' = SetTop([F EXCEPT
+                ELSE /\ IF s.par /\ Permuting
+                        THEN \E o \in Orders(lo, hi) :
+                               frames' = SetTop([F EXCEPT
+                                 !.env = (s.it :> o[1]) @@ @,
+                                 !.stk = Append(@, [b |-> s.body, i |-> 1, hi |-> hi, als |-> << >>,
+                                                    ord |-> Tail(o), pm |-> TRUE])])
+                        ELSE frames' = SetTop([F EXCEPT
                            !.env = (s.it :> lo) @@ @,
-                           !.stk = Append(@, [b |-> s.body, i |-> 1, hi |-> hi, als |-> << >>])])
+                           !.stk = Append(@, [b |-> s.body, i |-> 1, hi |-> hi, als |-> << >>, ord |-> << >>, pm |-> FALSE])])
                      /\ par' = IF s.par /\ Unit.race
                                THEN Append(ParLog(rd, {}, {}),
                                            [fd |-> NF, sd |-> Len(F.stk) + 1,
@@ -463,11 +481,13 @@ EndBlock ==
                 ELSE LET pc == F.stk[Len(F.stk) - 1]
                          ps == Blocks[pc.b][pc.i]
                          popped == SubSeq(F.stk, 1, Len(F.stk) - 1)
-                     IN IF ps.k = "for" /\ F.env[ps.it] + 1 < c.hi
+                         more == IF c.pm THEN c.ord # << >> ELSE F.env[ps.it] + 1 < c.hi
+                     IN IF ps.k = "for" /\ more
                         THEN /\ frames' = SetTop([F1 EXCEPT
-                                  !.env = [@ EXCEPT ![ps.it] = @ + 1],
+                                  !.env = [@ EXCEPT ![ps.it] = IF c.pm THEN Head(c.ord) ELSE @ + 1],
                                   !.stk = [F.stk EXCEPT ![Len(F.stk)] =
-                                              [b |-> c.b, i |-> 1, hi |-> c.hi, als |-> << >>]]])
+                                              [b |-> c.b, i |-> 1, hi |-> c.hi, als |-> << >>,
+                                               ord |-> IF c.pm THEN Tail(c.ord) ELSE << >>, pm |-> c.pm]]])
                              /\ par' = IF isParBody
                                        THEN [par EXCEPT ![Len(par)] =
                                                [@ EXCEPT !.acc = Merge(pm.acc, pm.cur), !.cur = EmptyAcc]]
